@@ -137,7 +137,11 @@ func guardedBy(site ssa.Instruction, fact0 FactFn) bool {
 		if r := fact0(cond, val); r != 0 {
 			return r
 		}
-		return helperFact(b.Parent(), cond, val, fact0, 0)
+		if r := helperFact(b.Parent(), cond, val, fact0, 0); r != 0 {
+			return r
+		}
+		// a boolean built with && / || and tested later (`known := ok && x == y; if !known {…}`)
+		return phiFact(cond, val, fact0, 0)
 	}
 	for _, cf := range dominatingConds(b) {
 		cond, val := stripNot(cf.Cond, cf.Val)
@@ -159,6 +163,16 @@ func guardedBy(site ssa.Instruction, fact0 FactFn) bool {
 				neg := blk.Succs[i]
 				pos := blk.Succs[1-i]
 				if neg != b && !reaches(neg, b) && (pos == b || reaches(pos, b)) {
+					return true
+				}
+			}
+			// the same seen from the staying side: this edge establishes the fact and
+			// the other edge cannot reach the site (needed when the leaving side only
+			// says "not all of a && b", which refutes nothing by itself)
+			if fact(cond, v) > 0 {
+				stay := blk.Succs[i]
+				leave := blk.Succs[1-i]
+				if leave != b && !reaches(leave, b) && (stay == b || reaches(stay, b)) {
 					return true
 				}
 			}
